@@ -66,6 +66,27 @@ Theorem C11_main : forall s es rel,
   exists i o, init s = Ok (i, o) /\ ok_C11 (mkCase s es rel (Some o) (run i es)) = true.
 Proof. exact ok_C11_model. Qed.
 
+(** C11_full_main: the COMPLETE oracle of the check - clauses (a)-(c) and clause
+    (d): a BMCA run that leaves the slave port slave of the same parent does not
+    change stepsRemoved, parentDS or timePropertiesDS, judged while the sequence
+    ids of that master on that port have moved forward by less than 2^15 in total -
+    accepts the model's own trace for every valid set-up and every valid event
+    list.  Clause (d) (Port/MainC11d.v) rests on model invariants proved for every
+    reachable state: the stored Announces of a master are ordered by age and form
+    a chain of accepted sequence ids (so the best message, taken out by a BMCA run,
+    is always put back as the newest record), ages are never negative, and, while
+    the ids move forward, the newest record of the parent is the Announce whose
+    contents the data sets hold. *)
+From SV Require Import Port.MainC11d.
+Theorem C11_clause_d_main : forall s es rel,
+  setup_valid s -> Forall event_valid es ->
+  exists i o, init s = Ok (i, o) /\ ok_C11d (mkCase s es rel (Some o) (run i es)) = true.
+Proof. exact ok_C11d_model. Qed.
+Theorem C11_full_main : forall s es rel,
+  setup_valid s -> Forall event_valid es ->
+  exists i o, init s = Ok (i, o) /\ ok_C11_full (mkCase s es rel (Some o) (run i es)) = true.
+Proof. exact ok_C11_full_model. Qed.
+
 (** Observation F27 (not raised, DESIGN 14.3; outside the quantifier of C11, which
     ranges over Announce contents, not over sequence-id anomalies): when the
     parent's sequence ids restart, parentDS alternates between the new contents
